@@ -127,6 +127,17 @@ func checkWindowCase(c WindowCase) (sig, what string, discard bool, ws windowSta
 			clauses = append(clauses, cl{fmt.Sprintf("skip %d take %d", k, tk), k, k + tk})
 		}
 	}
+	// amounts far beyond any number of matches (up to the largest integer the parser
+	// accepts): the window is what the formula says, clipped to A
+	for _, h := range []int{1<<31 - 1, 1 << 31, 1 << 32, 1 << 62, 1<<63 - 2, 1<<63 - 1} {
+		clauses = append(clauses, cl{fmt.Sprintf("top %d", h), 0, n}, cl{fmt.Sprintf("take %d", h), 0, n}, cl{fmt.Sprintf("last %d", h), 0, n}, cl{fmt.Sprintf("skip %d", h), n, n})
+		for _, k := range []int{0, 1, n} {
+			if k <= n {
+				clauses = append(clauses, cl{fmt.Sprintf("skip %d take %d", k, h), k, n})
+			}
+			clauses = append(clauses, cl{fmt.Sprintf("skip %d take %d", h, k), n, n})
+		}
+	}
 	for _, q := range clauses {
 		got, sig, what, discard := runClause(c, q.text)
 		if discard {
